@@ -3,6 +3,8 @@ package main
 import (
 	"fmt"
 	"strings"
+
+	"github.com/flosch/pongo2/v6"
 )
 
 func init() { props["C10"] = runC10 }
@@ -205,12 +207,22 @@ func runC10(r *run) {
 			w := &world{files: []map[string]string{files}}
 			// render every template of the chain, most derived first (rendering a parent must
 			// not be affected by its children having been compiled)
+			var names, wants []string
 			for lv := depth - 1; lv >= 0; lv-- {
 				var out strings.Builder
 				refRender(chain[:lv+1], chain[0].doc, nil, &out)
 				a := w.args(chain[lv].name, nil)
 				a = append(a, "-", "-", hx(out.String()))
 				emit(caseT{"renderfile", a})
+				names = append(names, hx(chain[lv].name))
+				wants = append(wants, hx(out.String()))
+			}
+			if depth > 1 && i%3 == 0 {
+				// all templates of the chain compiled in ONE set before any is rendered, through
+				// FromFile and through the cache, in both orders: each still renders as on its own
+				a := w.args(chain[0].name, nil)
+				a = append(a, "-", "-", strings.Join(names, ","), strings.Join(wants, ","), fmt.Sprint(i%4))
+				emit(caseT{"sharedset", a})
 			}
 		}
 		// the invalid shapes
@@ -231,6 +243,10 @@ func runC10(r *run) {
 		}
 	}
 	driveCases(r, gen, func(r *run, c caseT) {
+		if c.op == "sharedset" {
+			execC10Shared(r, c)
+			return
+		}
 		w, name, ctx := worldFromArgs(c.args)
 		o, _ := w.render(name, true, ctx)
 		id := r.emit("renderfile", c.args, o.obs)
@@ -256,4 +272,65 @@ func runC10(r *run) {
 		}
 	})
 	r.finish(nil)
+}
+
+func execC10Shared(r *run, c caseT) {
+	w, _, _ := worldFromArgs(c.args)
+	names := strings.Split(c.args[9], ",")
+	wants := strings.Split(c.args[10], ",")
+	var mode int
+	fmt.Sscanf(c.args[11], "%d", &mode)
+	b := w.build()
+	order := make([]int, len(names))
+	for i := range order {
+		order[i] = i
+		if mode%2 == 1 {
+			order[i] = len(names) - 1 - i
+		}
+	}
+	tpls := make([]*pongo2.Template, len(names))
+	obs := ""
+	var failed string
+	func() {
+		defer func() {
+			if p := recover(); p != nil {
+				failed = "panic: " + fmt.Sprint(p)
+			}
+		}()
+		for _, i := range order {
+			var err error
+			if mode < 2 {
+				tpls[i], err = b.set.FromCache(unhx(names[i]))
+			} else {
+				tpls[i], err = b.set.FromFile(unhx(names[i]))
+			}
+			if err != nil {
+				failed = "compile error: " + err.Error()
+				return
+			}
+		}
+		for round := 0; round < 2 && failed == ""; round++ {
+			for _, i := range order {
+				out, err := tpls[i].Execute(nil)
+				if err != nil {
+					failed = "execution error: " + err.Error()
+					return
+				}
+				if out != unhx(wants[i]) {
+					failed = fmt.Sprintf("%s rendered %q, on its own it renders %q", unhx(names[i]), out, unhx(wants[i]))
+					return
+				}
+			}
+		}
+	}()
+	if failed == "" {
+		obs = "same"
+	} else {
+		obs = "differs"
+	}
+	id := r.emit(c.op, c.args, "sharedset:"+obs)
+	r.nontrivial(c.args[2] + c.args[11])
+	if failed != "" {
+		r.reject(id, "templates of one chain compiled in the same set do not render as each renders on its own", map[string]any{"files": w.files, "mode": mode, "what": failed})
+	}
 }
